@@ -36,6 +36,28 @@ Ltac conf H :=
     ?(dc_tmax _ _ H), ?(dc_tmin _ _ H), ?(dc_delta _ _ H), ?(dc_count _ _ H), ?(dc_warmer _ _ H),
     ?(dc_bg _ _ H), ?(dc_preview _ _ H), ?(dc_npix _ _ H).
 
+Ltac conf_in H E :=
+  rewrite ?(dc_start _ _ H), ?(dc_rowStop _ _ H), ?(dc_colStop _ _ H), ?(dc_dyn _ _ H), ?(dc_one _ _ H),
+    ?(dc_tmax _ _ H), ?(dc_tmin _ _ H), ?(dc_delta _ _ H), ?(dc_count _ _ H), ?(dc_warmer _ _ H),
+    ?(dc_bg _ _ H), ?(dc_preview _ _ H), ?(dc_npix _ _ H) in E.
+
+(* all setters computed away, whichever fields the code assigns *)
+Ltac md_norm :=
+  cbv beta iota zeta delta
+    [motionDetector_set_flooredFrames motionDetector_set_diffFrames motionDetector_set_firstDiff
+     motionDetector_set_dynamicThresh motionDetector_set_useOneDiff motionDetector_set_tempThresh
+     motionDetector_set_tempThreshMax motionDetector_set_tempThreshMin motionDetector_set_deltaThresh
+     motionDetector_set_countThresh motionDetector_set_warmerOnly motionDetector_set_start
+     motionDetector_set_rowStop motionDetector_set_columnStop motionDetector_set_count
+     motionDetector_set_background motionDetector_set_backgroundFrames motionDetector_set_previewFrames
+     motionDetector_set_numPixels motionDetector_set_affectedByFCC motionDetector_set_framesHz];
+  cbn [motionDetector_flooredFrames motionDetector_diffFrames motionDetector_firstDiff motionDetector_dynamicThresh
+       motionDetector_useOneDiff motionDetector_tempThresh motionDetector_tempThreshMax motionDetector_tempThreshMin
+       motionDetector_deltaThresh motionDetector_countThresh motionDetector_warmerOnly motionDetector_start
+       motionDetector_rowStop motionDetector_columnStop motionDetector_count motionDetector_background
+       motionDetector_backgroundFrames motionDetector_previewFrames motionDetector_numPixels
+       motionDetector_affectedByFCC motionDetector_framesHz].
+
 Definition cdims (c : dcfg) : Prop := (2 * d_edge c < d_w c)%nat /\ (2 * d_edge c < d_h c)%nat.
 
 (* 16-bit grids (reads outside a grid give 0) *)
@@ -233,20 +255,22 @@ Section Diff.
     assert (E : floor_to t v = if v <? motionDetector_tempThresh d then motionDetector_tempThresh d else v) by reflexivity;
     revert E; destruct (v <? motionDetector_tempThresh d); intros E.
 
-  (* the body of the inner loop, for either difference *)
+  (* the body of the inner loop, for either difference: the reads, the debug call and the two floors in
+     whatever order the code has them, then the difference and the write *)
   Ltac diff_pixel t d opok newv y x Hout Ht Ba Bb lem :=
     cbv beta iota zeta; rewrite !(wrap_u_small _ Ht);
-    rewrite c_get; cbv beta; rewrite ?c_debug; cbv beta;
-    rewrite pixof_set_pix_neq, !Nat2Z.id by (assumption || apply Hout);
-    let Ea := fresh "Ea" in let Eb := fresh "Eb" in
-    match goal with |- context [if ?va <? _ then _ else _] => floor_case t d va Ea end;
-    (rewrite c_get; cbv beta; rewrite pixof_set_pix_neq, !Nat2Z.id by (assumption || apply Hout);
-     match goal with |- context [if ?vb <? _ then _ else _] => floor_case t d vb Eb end;
-     (rewrite opok by (first [exact Ht | apply Ba | apply Bb]); rewrite c_set; cbv beta; rewrite ?bind_ret;
-      eexists; eexists; split; [reflexivity|];
-      match goal with |- context [gset _ _ _ ?v] =>
-        replace v with (newv y x) by (cbv beta delta [newv]; rewrite Ea, Eb; reflexivity) end;
-      apply lem; assumption)).
+    repeat first
+      [ rewrite c_get; cbv beta; rewrite pixof_set_pix_neq, !Nat2Z.id by (assumption || apply Hout)
+      | rewrite c_debug; cbv beta
+      | match goal with |- context [if ?v <? _ then _ else _] => let E := fresh "Ef" in floor_case t d v E end ];
+    (rewrite opok by (first [exact Ht | apply Ba | apply Bb]); rewrite c_set; cbv beta; rewrite ?bind_ret;
+     eexists; eexists; split; [reflexivity|];
+     match goal with |- context [gset _ _ _ ?v] =>
+       replace v with (newv y x)
+         by (cbv beta delta [newv];
+             repeat match goal with E : floor_to _ ?u = _ |- context [floor_to _ ?u] => rewrite E end;
+             reflexivity) end;
+     apply lem; assumption).
 
   Theorem absDiffFrames_ok :
     motionDetector_absDiffFrames dext d a b out w0 =
@@ -330,7 +354,9 @@ Section Count.
         rewrite !Nat2Z.id; conf Hc;
         match goal with |- exists s' w', (if ?b then _ else _) _ = _ /\ _ =>
           exists (d, cstep p (fold_left (cstep p) (ipre c y x) 0) (y, x)), w0; split;
-          [ let Eb := fresh "Eb" in destruct b eqn:Eb; cbv beta delta [cstep]; cbn [fst snd];
+          [ let Eb := fresh "Eb" in
+            let b0 := lazymatch b with negb ?b' => constr:(b') | _ => constr:(b) end in
+            destruct b0 eqn:Eb; cbn [negb]; cbv beta delta [cstep]; cbn [fst snd];
             rewrite <- ?Z.gtb_ltb, ?Eb; reflexivity
           | split; [reflexivity | rewrite fold_ipre_step by lia; reflexivity] ]
         end
@@ -355,13 +381,18 @@ Section Count.
     count_loops (fun y x => (d_delta c <? gget (pixof w0 f1) y x) && (d_delta c <? gget (pixof w0 f2) y x)).
   Qed.
 
+  (* whichever count the code calls, in whichever branch of whichever test of useOneDiff *)
   Theorem hasMotion_ok f1 f2 :
     exists n, motionDetector_hasMotion dext d f1 f2 w0 = Ok (d, (has_motion c (pixof w0 f1) (pixof w0 f2), n)) w0.
   Proof.
-    unfold motionDetector_hasMotion, has_motion. conf Hc. destruct (d_one c).
-    - eexists. rewrite (bind_ok _ _ _ _ _ (CountPixels_ok f1)). cbv beta iota. conf Hc.
-      rewrite Z.geb_leb. reflexivity.
-    - eexists. rewrite (bind_ok _ _ _ _ _ (CountPixelsTwoCompare_ok f1 f2)). cbv beta iota. conf Hc.
-      rewrite Z.geb_leb. reflexivity.
+    unfold motionDetector_hasMotion, has_motion. cbv zeta. conf Hc.
+    destruct (d_one c); cbn [negb]; cbv iota; eexists;
+      repeat match goal with
+             | |- context [bind (motionDetector_CountPixels dext d ?g) ?k ?w] =>
+               rewrite (bind_ok _ k w _ _ (CountPixels_ok g)); cbv beta iota zeta; conf Hc
+             | |- context [bind (motionDetector_CountPixelsTwoCompare dext d ?g ?h) ?k ?w] =>
+               rewrite (bind_ok _ k w _ _ (CountPixelsTwoCompare_ok g h)); cbv beta iota zeta; conf Hc
+             end;
+      rewrite ?Z.geb_leb; reflexivity.
   Qed.
 End Count.
